@@ -181,10 +181,35 @@ class Relay:
         self.log.callback(device)
 
 
+async def _wait_all_delivered(log: EventLog, n0: int, n: int, port: int, limit_s: float = 10.0):
+    """Wait (real clock, generous) until n deliveries beyond n0 were made.  -> 'ok' | 'missing' (the socket is gone or has consumed
+    everything it was sent without dropping: the deliveries are not coming) | 'unknown' (kernel drops or still queued: inconclusive)."""
+    import time as _t
+
+    t0, spin = _t.monotonic(), 0
+    while log.deliveries - n0 < n:
+        spin += 1
+        await asyncio.sleep(0 if spin < 200 else 0.002)
+        if _t.monotonic() - t0 > limit_s:
+            break
+        if spin > 400 and spin % 50 == 0:
+            row = proc_udp_row(port)
+            if row is None or (row["drops"] == 0 and row["rx_queue"] == 0):
+                # nothing is queued and nothing was dropped: give the loop a last few turns, then decide
+                for _ in range(5):
+                    await asyncio.sleep(0)
+                if log.deliveries - n0 < n:
+                    return "missing"
+    if log.deliveries - n0 >= n:
+        return "ok"
+    row = proc_udp_row(port)
+    return "missing" if row is None or (row["drops"] == 0 and row["rx_queue"] == 0) else "unknown"
+
+
 async def unowned_bridge_probe(rig: "UdpRig", descs, keep_bridge: bool):
     """Start a bridge the way a set-up helper does - the callback is a bound method of an object nobody else references and
     (keep_bridge False) the bridge object itself goes out of scope once started - collect garbage, then send `descs`.
-    -> (delivered devices, sent datagrams).  The transports are closed afterwards."""
+    -> (delivered devices, verdict of the wait).  The transports are closed afterwards."""
     import gc
 
     from aioswitcher.bridge import SwitcherBridge
@@ -201,16 +226,10 @@ async def unowned_bridge_probe(rig: "UdpRig", descs, keep_bridge: bool):
     gc.collect()
     await asyncio.sleep(0)
     gc.collect()
-    sent = []
     try:
         for d in descs:
-            data = rb.encode(d)
-            sent.append(data)
-            rig.send(port, data)
-        for spin in range(400):
-            if log.deliveries >= len(sent):
-                break
-            await asyncio.sleep(0 if spin < 200 else 0.002)
+            rig.send(port, rb.encode(d))
+        verdict = await _wait_all_delivered(log, 0, len(descs), port)
         for _ in range(3):
             await asyncio.sleep(0)
     finally:
@@ -219,12 +238,12 @@ async def unowned_bridge_probe(rig: "UdpRig", descs, keep_bridge: bool):
         for t in transports:
             t.close()
         await asyncio.sleep(0)
-    return [p for k, p in log.events if k == "device"], sent
+    return [p for k, p in log.events if k == "device"], verdict
 
 
 def second_loop_probe(make_bridge, port: int, datagrams, log: EventLog, sender):
     """Run in a worker thread: a brand-new event loop (asyncio.run) in which an already used bridge object is started again,
-    fed `datagrams` and stopped.  -> number of deliveries seen in that loop."""
+    fed `datagrams` and stopped.  -> (number of deliveries seen in that loop, verdict of the wait)."""
 
     async def main():
         bridge = make_bridge()
@@ -233,13 +252,10 @@ def second_loop_probe(make_bridge, port: int, datagrams, log: EventLog, sender):
             n0 = log.deliveries
             for data in datagrams:
                 sender.sendto(data, ("127.0.0.1", port))
-            for spin in range(400):
-                if log.deliveries - n0 >= len(datagrams):
-                    break
-                await asyncio.sleep(0 if spin < 200 else 0.002)
+            verdict = await _wait_all_delivered(log, n0, len(datagrams), port)
             for _ in range(3):
                 await asyncio.sleep(0)
-            return log.deliveries - n0
+            return log.deliveries - n0, verdict
         finally:
             await bridge.stop()
             await asyncio.sleep(0)
